@@ -547,7 +547,7 @@ def run(tier, R):
         # three tokens deep on one size only (depth 3 on every size and encoding is > 10^7 transitions and did not fit the budget)
         res1b = R.bfs(RobustSpec([(3, 2)], ["utf-8"]), depth=3, max_states=400_000)
     fs = FaithSpec([(3, 2), (4, 3), (2, 4)], tier)
-    res2 = R.bfs(fs, depth=4 if quick else 6, max_states=600000)
+    res2 = R.bfs(fs, depth=4 if quick else 5, max_states=600000)  # (depth 6 is ~2*10^7 transitions: did not fit the budget)
     kmax = 12 if quick else 24
     R.run_tasks(t_scrollback, [("sb", w, h, min(k0 + 3, kmax), k0) for (w, h) in ((3, 2), (4, 3), (2, 1), (5, 4)) for k0 in range(0, kmax + 1, 4)])
     ev = int(R.ctx.counts["evaluations"])
